@@ -4,7 +4,7 @@
    every choice of the cryptographic oracles (code hash, point decoding,
    ECDSA and Schnorr verification, SHA-256 of a key script). *)
 From Coq Require Import ZArith Bool List.
-From ELA Require Import model.C05_Sig proof.C05_Sig.
+From ELA Require Import model.C05_Sig proof.C05_Sig gen.C05_exempt.
 Import ListNotations.
 Local Open Scope Z_scope.
 
@@ -105,6 +105,37 @@ Theorem C05_crosschain_prefix_m0_refuted :
   run_programs codehash point_ok (fun _ _ _ => false) verify_schnorr keyhash true data [h] [(code, [])] = true.
 Proof. exact crosschain_m0_refuted. Qed.
 Print Assumptions C05_crosschain_prefix_m0_refuted.
+
+(* Exemptions.  The table of (transaction type, payload version) pairs for
+   which checkTransactionSignature returns nil without running any program is
+   regenerated from the code under test on every run (gen/C05_exempt.v).  Every
+   exempt pair must be one the property allows: a type that cannot have inputs,
+   or whose SpecialContextCheck restricts where the inputs come from, or one of
+   the two recorded known findings (model/C05_Sig.v [allowed_reason]).  A
+   widened exemption (e.g. CRCProposalWithdraw with payload version 2) makes
+   this theorem fail. *)
+Theorem C05_exemptions_justified :
+  forall ty v, 0 <= ty < 256 -> 0 <= v < 256 ->
+  exempt C05_exempt.rows ty v = true -> justified C05_exempt.facts ty v = true.
+Proof. exact (all_exemptions_justified_spec C05_exempt.rows C05_exempt.facts C05_exempt.checked). Qed.
+Print Assumptions C05_exemptions_justified.
+
+(* checkTransactionSignature for every transaction type: accepted => the
+   pair is a justified exemption, or every spent non-CrossChain address has
+   an authorising program. *)
+Theorem C05_typed_transaction_sound_partial :
+  forall codehash point_ok verify_ecdsa verify_schnorr keyhash ty v data refs attrs progs,
+  0 <= ty < 256 -> 0 <= v < 256 ->
+  check_tx_signature_typed codehash point_ok verify_ecdsa verify_schnorr keyhash C05_exempt.rows ty v data refs attrs progs = true ->
+  justified C05_exempt.facts ty v = true \/
+  forall h, In h refs \/ In (32, h) attrs -> negb (prefix_of h =? 75) = true ->
+    exists cp, In cp progs /\ tl h = codehash (fst cp) /\
+               authorised verify_ecdsa verify_schnorr data (fst cp) (snd cp).
+Proof.
+  exact (fun ch po ve vs kh ty v data refs attrs progs =>
+           typed_transaction_sound ch po ve vs kh C05_exempt.rows C05_exempt.facts ty v data refs attrs progs C05_exempt.checked).
+Qed.
+Print Assumptions C05_typed_transaction_sound_partial.
 
 (* Non-vacuity: a 2-of-3 instance is accepted with two different signers and
    rejected with one signer twice or with one signature only. *)
